@@ -102,6 +102,14 @@ def runCase : CaseFn := fun c => Id.run do
           else if s != obs then
             out := out.push s!"DIFF C16 case {c.num} line {ln}: dump impl=<{obs}> spec=<{s}>"
             diverged := true
+    else if ws == ["pget"] then
+      -- Get of a key that is never stored, called while other callers are in flight: read-only, must wait for the mutex
+      match words obs with
+      | ["held1", "blocked"] => pure ()
+      | "held1" :: rest =>
+        out := out.push s!"ORACLE-FAIL C16 case {c.num} line {ln}: shape=read-during-critical-section {op} returned <{" ".intercalate rest}> while another call was inside its critical section (a lookup that does not wait for the mutex)"
+      | ["held0", "v", "0"] => pure ()
+      | _ => out := out.push s!"ORACLE-FAIL C16 case {c.num} line {ln}: {op} of a key that was never stored: {obs}"
     else if ws == ["psize"] || ws == ["plen"] then
       -- Size()/Len() called while other callers are in flight
       match words obs with
